@@ -212,7 +212,7 @@ func TestC13(t *testing.T) {
 		return
 	}
 
-	r.Rapid(t, "schedules", vf.N(400, 160000), func(t *rapid.T) {
+	r.Rapid(t, "schedules", vf.N(800, 160000), func(t *rapid.T) {
 		typ := uint8(rapid.IntRange(1, 15).Draw(t, "type"))
 		switch rapid.IntRange(0, 5).Draw(t, "connect") {
 		case 0:
